@@ -28,9 +28,16 @@ import (
 
 type gRPCServer struct {
 	server *grpc.Server
+
+	// mu guards conns, the accepted connections which have not been closed
+	// yet, and closed which is set once they have been closed for good.
+	mu     sync.Mutex
+	conns  map[net.Conn]struct{}
+	closed bool
 }
 
 func (s *gRPCServer) Close() error {
+	s.closeConns()
 	s.server.Stop()
 	return nil
 }
@@ -39,6 +46,11 @@ func (s *gRPCServer) Close() error {
 // pending calls to finish. When ctx ends first the remaining connections
 // are closed, so that a call or stream which never ends cannot keep the
 // shutdown from completing within the configured wait.
+//
+// The connections are closed here and not only by Stop since the grpc
+// server does not know a connection before its HTTP/2 handshake has
+// completed, but GracefulStop and Stop both wait for it: a client that
+// connects and stays silent would delay them until the handshake times out.
 func (s *gRPCServer) Shutdown(ctx context.Context) error {
 	done := make(chan struct{})
 	go func() {
@@ -49,6 +61,7 @@ func (s *gRPCServer) Shutdown(ctx context.Context) error {
 	case <-done:
 		return nil
 	case <-ctx.Done():
+		s.closeConns()
 		s.server.Stop()
 		<-done
 		return ctx.Err()
@@ -56,7 +69,57 @@ func (s *gRPCServer) Shutdown(ctx context.Context) error {
 }
 
 func (s *gRPCServer) Serve(lis net.Listener) error {
-	return s.server.Serve(lis)
+	return s.server.Serve(&grpcListener{Listener: lis, srv: s})
+}
+
+// closeConns closes all connections the server has accepted including
+// the ones which are still to be accepted.
+func (s *gRPCServer) closeConns() {
+	s.mu.Lock()
+	defer s.mu.Unlock()
+	s.closed = true
+	for c := range s.conns {
+		c.Close()
+	}
+	s.conns = nil
+}
+
+// grpcListener keeps track of the connections it has accepted.
+type grpcListener struct {
+	net.Listener
+	srv *gRPCServer
+}
+
+func (l *grpcListener) Accept() (net.Conn, error) {
+	c, err := l.Listener.Accept()
+	if err != nil {
+		return nil, err
+	}
+	s := l.srv
+	s.mu.Lock()
+	defer s.mu.Unlock()
+	if s.closed {
+		c.Close()
+		return c, nil
+	}
+	if s.conns == nil {
+		s.conns = map[net.Conn]struct{}{}
+	}
+	s.conns[c] = struct{}{}
+	return &grpcConn{Conn: c, srv: s}, nil
+}
+
+// grpcConn is a connection which the server forgets when it is closed.
+type grpcConn struct {
+	net.Conn
+	srv *gRPCServer
+}
+
+func (c *grpcConn) Close() error {
+	c.srv.mu.Lock()
+	delete(c.srv.conns, c.Conn)
+	c.srv.mu.Unlock()
+	return c.Conn.Close()
 }
 
 func GetGRPCDirector(tlscfg *tls.Config, cfg *config.Config) func(ctx context.Context, fullMethodName string) (context.Context, *grpc.ClientConn, error) {
